@@ -26,6 +26,22 @@ transmissivity:
 """
 
 
+WHY = {   # Spowtd!Outcome -> (exception class name, message fragment)
+    "integrity": ("IntegrityError", "constraint failed"),
+    "no_grid": ("ValueError", "Discrete water level interval not yet set"),
+    "no_intervals": ("ValueError", "empty series list"),
+    "no_curvature": ("ValueError", "Site curvature must be set"),
+    "no_curve": ("ValueError", "not enough values to unpack"),
+}
+
+
+def failure_matches(o, why):
+    if o.exc is None or why not in WHY:
+        return False
+    cls, frag = WHY[why]
+    return type(o.exc).__name__ == cls and frag in str(o.exc)
+
+
 def state_key(st):
     return json.dumps(st["disk"], sort_keys=True)
 
@@ -137,14 +153,17 @@ def process_state(args):
             o = run_counted(world, c, db, plan)
             after = P.logical_dump(db)
             ident = "%s %s from %s" % (c[0], c[1], key)
-            res["streams"].append({"id": ident, "events": F.summarize(plan.log), "readonly": act == "read",
+            res["streams"].append({"id": ident, "events": F.summarize(plan.log), "readonly": act in ("read", "readfail"),
                                    "outcome": "ok" if o.ok else "failed"})
             res["edges"].append((act, c))
-            if act == "doomed":
+            if act in ("doomed", "readfail"):
                 if o.ok:
-                    res["problems"].append((ident, "the specification says this step cannot complete here, but it exited 0"))
+                    res["problems"].append((ident, "the specification says this command cannot complete here (%s), but it exited 0" % e["why"]))
                 elif after != before:
-                    res["problems"].append((ident, "a failing step (%s) changed the dataset" % o.describe()))
+                    res["problems"].append((ident, "a failing command (%s) changed the dataset" % o.describe()))
+                elif not failure_matches(o, e["why"]):
+                    res["problems"].append((ident, "failed as %s; the specification says: %s %s" % (
+                        o.describe(), e["why"], WHY.get(e["why"]))))
                 os.unlink(db)
                 continue
             if act == "read":
@@ -256,8 +275,9 @@ def c20(chk, tier):
         f, t = e["from"], e["to"]
         if f["cmd"] == "none":
             states[state_key(f)] = f
-            if e["act"] in ("doomed", "read"):
-                out_edges.setdefault(state_key(f), {})[(e["act"], tuple(e["c"]))] = {"act": e["act"], "c": e["c"]}
+            if e["act"] in ("doomed", "read", "readfail"):
+                out_edges.setdefault(state_key(f), {})[(e["act"], tuple(e["c"]))] = {"act": e["act"], "c": e["c"],
+                                                                                      "why": e.get("why", "ok")}
             elif e["act"] == "begin":
                 chains[(state_key(f), tuple(e["c"]))] = None
         if e["act"] == "commit":
